@@ -348,10 +348,11 @@ func c09Events(c *Ctx, cs c09Case, out *GenOut) {
 // ---------- targeted naming attacks ----------
 
 const c09Schema = `
-type Query { user: User, friend: User, users: [User], node: Node, other: Node, a: Bc, aBc: Bc, pet: Pet }
+type Query { user: User, friend: User, users: [User], node: Node, other: Node, a: Bc, aBc: Bc, pet: Pet, viewer: CurrentUser, currentUser: User }
 interface Node { id: ID! }
 type User implements Node { id: ID! name: String email: String friend: User bc: Bc role: Role }
 enum Role { ADMIN MEMBER }
+type CurrentUser { id: ID! name: String }
 type Pet implements Node { id: ID! name: String email: String owner: User }
 type Bc { id: ID! name: String email: String friend: Bc bc: Bc user: User }
 `
@@ -376,7 +377,7 @@ func c09Targeted(r *proto.Rng) (c09Case, string) {
 	s1, s2 := "\n"+sels[pr[0]]+"\n", "\n"+sels[pr[1]]+"\n"
 	shape := pr[0] + "/" + pr[1]
 	attack := proto.Pick(r, []string{"shared-typename-one-op", "shared-typename-two-ops", "shared-typename-two-types", "alias-concatenation",
-		"typename-like-generated", "fragment-like-generated", "fragment-impl-like-fragment", "nested-abstract-inline", "fragment-or-typename-like-enum"})
+		"typename-like-generated", "fragment-like-generated", "fragment-impl-like-fragment", "nested-abstract-inline", "fragment-or-typename-like-enum", "shortened-name-coincidence"})
 	ops := ""
 	switch attack {
 	case "shared-typename-one-op":
@@ -429,6 +430,18 @@ func c09Targeted(r *proto.Rng) (c09Case, string) {
 		if !viaTypename {
 			ops += "fragment Role on User {\n id\n name\n}\n"
 		}
+	case "shortened-name-coincidence":
+		// `query Get { viewer {…} }` (viewer: CurrentUser) and `query GetViewer { currentUser {…} }` (currentUser: User):
+		// Get+Viewer+CurrentUser and GetViewer+CurrentUser(+User, shortened away) are the same Go name for two GraphQL types
+		first := r.Bool()
+		shape = fmt.Sprint("get-first=", first)
+		a := "query Get {\n  viewer {\n id\n }\n}\n"
+		b := "query GetViewer {\n  currentUser {\n name\n }\n}\n"
+		if first {
+			ops = a + b
+		} else {
+			ops = b + a
+		}
 	case "nested-abstract-inline":
 		// a composite field below an abstract field is converted once per implementation: must be recognised as the same
 		ops = fmt.Sprintf("query Q {\n  node {\n    id\n    ... on Node {\n ... on User {\n friend { %s }\n }\n ... on Pet {\n owner { %s }\n }\n }\n  }\n  other {\n ... on User {\n bc {\n id\n user { %s }\n }\n }\n }\n}\n", s1, s2, s1)
@@ -467,6 +480,24 @@ func c09One(c *Ctx, cs c09Case, key string) {
 			_, isStruct := d.structs["Role"]
 			_, isNamed := d.named["Role"]
 			c.Res.Add(proto.Finding{Kind: "violation", Class: "wrong-type-reused", What: fmt.Sprintf("a fragment/typename called Role and the enum Role both need the Go type name Role; generation succeeded (Role is a struct: %v, a string type: %v), so one of the two places uses the other's type", isStruct, isNamed), Case: cs})
+		}
+	}
+	if cs.Attack == "shortened-name-coincidence" && out.Err == nil && out.Panic == nil {
+		// both operations were generated together: then each must get exactly the declarations it gets alone
+		together, _ := goDeclTexts(out.Files["generated.go"])
+		for _, opText := range []string{"query Get {\n  viewer {\n id\n }\n}\n", "query GetViewer {\n  currentUser {\n name\n }\n}\n"} {
+			alone := runGenerate(c.Work, &Program{Schema: cs.Schema, Ops: map[string]string{"ops.graphql": opText}, Cfg: cs.Cfg}, false)
+			if alone.Err != nil || alone.Panic != nil {
+				continue
+			}
+			decls, _ := goDeclTexts(alone.Files["generated.go"])
+			for k, t := range decls {
+				if tt, ok := together[k]; !ok || tt != t {
+					c.Res.Add(proto.Finding{Kind: "violation", Class: "declaration-differs-alone-vs-together",
+						What: fmt.Sprintf("two places need the Go name GetViewerCurrentUser for different GraphQL types; generation succeeded and declaration %q of %s differs alone vs together:\n--- alone\n%s\n--- together\n%s", k, firstLine(opText), trunc(t, 400), trunc(tt, 400)), Case: cs})
+					break
+				}
+			}
 		}
 	}
 	c09Events(c, cs, out)
